@@ -273,6 +273,12 @@ void RelayServer::handle_register(const std::shared_ptr<ClientSession>& session,
         queue_text(session, "ERROR invalid-peer\n");
         return;
     }
+    if (!session->partner.expired()) {
+        // Already claimed by a connector that has not finished its handshake: registering again
+        // would let a second connector claim this session and cross the two bridges.
+        queue_text(session, "ERROR already-claimed\n");
+        return;
+    }
 
     remove_registration(session);
     session->peer_id = *peer;
